@@ -176,6 +176,16 @@ CLAIMED = {
         note="Trusted: Coq kernel (+ Reals axioms for the first two theorems); FITPACK evaluators; translator.  Completeness of the candidate search (grid minima of Bp^2 + Newton "
              "convergence) is observed on the sampled functions, not proved; the monotonicity filter is modelled (keep_xpoint) and compared, its geometric meaning is not a theorem.",
         technique="Coq proofs on translated expressions and a computable hand model + vm_compute correspondence + independent-solver oracle", design="6/C19"),
+    "C14": dict(
+        text="PARTIAL.  Proved (Coq, on the REGENERATED option pre-processing and the regenerated fact which parameter arrays are updated in place): for every combination of the sign / "
+             "unit options the constructor leaves the caller's arrays as they were, and any number of constructions from the same arrays see the same inputs; the in-place form is refuted "
+             "with a witness (finding F5).  Observed on the real code (not provable in a model: floating-point determinism of SciPy / netCDF / process scheduling): the real constructor on "
+             "caller-owned arrays (arrays, wall list, three constructions); command-line round trips geqdsk -> hypnotoad-geqdsk (twice, two processes) -> hypnotoad-recreate-inputs -> "
+             "hypnotoad-geqdsk for option sets incl. sign options, defaults that are expressions, an explicit None: every numeric variable bit-identical, embedded geqdsk byte-exact, embedded "
+             "YAML safe_load-able and complete against the three option factories, only grid_id / versions / file name differ; one interpreter building X, Y, Z, X.",
+        note="level proof for the side-effect / history part only; determinism and the provenance round trip are correspondence-style observations on the real entry points.  Trusted: Coq "
+             "kernel + Reals axioms, translate/options.py, the hand model of numpy's in-place semantics.",
+        technique="Coq proof on regenerated option pre-processing + end-to-end round trips through the real command-line entry points", design="6/C14", partial=True),
 }
 
 PENDING = ["C01", "C03", "C04", "C05", "C06", "C07", "C08", "C09", "C10", "C11", "C12", "C13", "C14", "C15", "C16", "C17", "C18", "C19", "C20"]
